@@ -69,6 +69,7 @@ type Config struct {
 	MaxSteps      int            // scheduler steps per run; exceeding it gives VCapped (never a violation)
 	LoneLimit     int            // consecutive lone poll intervals that make a livelock verdict
 	MapBase       string         // base order handed to the chooser by MapKeys: asc (default) | desc | rot
+	YieldOnMake   bool           // treat channel creation as a preemption point
 	ClockAdvance  bool           // offer "advance the clock" as a scheduling option while goroutines are runnable
 	KeepTrace     bool           // keep the full event list (replays, samples)
 	WallLimit     time.Duration  // real-time watchdog for one run
@@ -124,6 +125,7 @@ type Sim struct {
 
 	FirstForeign uint64 // seq of the first fired receive on a foreign channel (0 = none)
 	sinceAdvance int    // scheduling steps since the clock last moved
+	inTimerSetup bool   // a timer channel is being created (no preemption there)
 	enabledBuf   []*G
 	optBuf       []string
 }
